@@ -360,6 +360,14 @@ func (e *kvElection) becomeLeader(token string, rev uint64) {
 	e.mu.Lock()
 	defer e.mu.Unlock()
 
+	// The election may have been stopped while the acquisition was in flight
+	// (Stop cancels the context, StopWithContext also clears it). A stopped
+	// election must not claim leadership: nothing would refresh the record
+	// and nothing would ever clear the claim.
+	if e.ctx == nil || e.ctx.Err() != nil {
+		return
+	}
+
 	fromState := StateInit
 	if s := e.state.Load(); s != nil {
 		if str, ok := s.(string); ok {
